@@ -2,6 +2,7 @@ import LexVerif.Spec.Decimal
 import LexVerif.Props.TablesParse
 import LexVerif.Proof.FastPathExact
 import LexVerif.Proof.LemireExact
+import LexVerif.Proof.BellSound
 /-!
 # C01 — decimal string→float parsing is correctly rounded (property theorems)
 
@@ -17,7 +18,12 @@ Algorithm level (models `Model.FastPath`, `Model.Lemire`, tied to the code by th
 * `lemire_sound_partial` — proved: a zero mantissa, both cut-offs (`q < SMALLEST_POWER_OF_TEN`,
   `q > LARGEST_POWER_OF_TEN`), and the whole exact-product range `0 ≤ q ≤ 27` for every `w < 2^64`;
 * `lemire_wrapper` — proved: the `many_digits` two-pass wrapper is correct relative to `compute_float`
-  on `w` and `w + 1`.
+  on `w` and `w + 1`;
+* `bellerophon_sound` (`compact` builds) — the **full** statement, a `Prop`; `bellerophon_sound_partial` —
+  proved for every **untruncated** mantissa (`many_digits = false`), every exponent: early exits, the error
+  accounting of both multiplications against the *truncated* table (`Proof.BellError.scale_bound`), the
+  `error_is_accurate` decision and the rounding (`Proof.BellRound.bellFinish_sound`). Missing: truncated
+  mantissas (`many_digits`), where the booked `8 << min(ctlz+1, 20)` has to cover `x ∈ [w, w+1)·10^e`.
 -/
 namespace LexVerif.Props.C01
 open LexVerif.Spec LexVerif.Model LexVerif.Proof.Tables
@@ -222,6 +228,40 @@ example : Lemire.lemire FTy.f64 ⟨1234567890123456789, 5, false, true⟩ false 
   decide +kernel
 /-- … and declines when `w` and `w + 1` round differently (marker: negative exponent) -/
 example : Lemire.lemire FTy.f64 ⟨9007199254740993, 0, false, true⟩ false = .ok ⟨9223372036854776832, -31703⟩ := by
+  decide +kernel
+
+/-! ## Bellerophon (decimal, `compact` builds) -/
+
+/-- **C01.5' `bellerophon_sound` — full statement** (a `Prop`): a valid non-lossy answer of `bellerophon` for the
+mantissa `w` (truncated or not) is `roundNE x` for the true value `x`: `x = w·10^e`, or any
+`x ∈ [w, w+1)·10^e` when `many_digits` is set. -/
+def bellerophon_sound : Prop :=
+  ∀ F, IsLemireFloat F → ∀ (n : Num), n.mantissa < 2 ^ 64 → ∀ (num den : Nat), 0 < den →
+    (powFrac 10 n.exponent n.mantissa).1 * den ≤ num * (powFrac 10 n.exponent n.mantissa).2 →
+    (if n.manyDigits then num * (powFrac 10 n.exponent (n.mantissa + 1)).2 < (powFrac 10 n.exponent (n.mantissa + 1)).1 * den
+     else num * (powFrac 10 n.exponent n.mantissa).2 = (powFrac 10 n.exponent n.mantissa).1 * den) →
+    ∀ fp, Bellerophon.bellerophon F (Gen.Bellerophon.CompactRadix.powers 10) n false = .ok fp → 0 ≤ fp.exp →
+      extendedToFloat F fp = roundNE F.fmt num den
+
+/-- **`bellerophon_sound_partial`**: the untruncated case, for every `w < 2^64` and every exponent. -/
+theorem bellerophon_sound_partial (F : FTy) (hF : IsLemireFloat F) (n : Num) (hmany : n.manyDigits = false)
+    (hw : n.mantissa < 2 ^ 64) {fp : ExtendedFloat80}
+    (h : Bellerophon.bellerophon F (Gen.Bellerophon.CompactRadix.powers 10) n false = .ok fp) (hv : 0 ≤ fp.exp) :
+    extendedToFloat F fp =
+      roundNE F.fmt (powFrac 10 n.exponent n.mantissa).1 (powFrac 10 n.exponent n.mantissa).2 := by
+  have hc := LexVerif.Proof.Bell.bellFacts_of
+    (LexVerif.Proof.Bell.bellCheck_compact 10 (by decide))
+  rcases hF with h' | h' <;> subst h'
+  · exact LexVerif.Proof.Bell.bellerophon_untruncated_sound layout_f64 (by decide) hc n hmany hw h hv
+  · exact LexVerif.Proof.Bell.bellerophon_untruncated_sound layout_f32 (by decide) hc n hmany hw h hv
+
+/-- non-vacuity: a decided and an undecided decimal case (values from the compiled crate, op `bel`) -/
+example : Bellerophon.bellerophon FTy.f64 (Gen.Bellerophon.CompactRadix.powers 10) ⟨12345, 10, false, false⟩ false =
+      .ok ⟨3397200372629504, 1069⟩ ∧
+    Bellerophon.bellerophon FTy.f64 (Gen.Bellerophon.CompactRadix.powers 10)
+        ⟨9007199254740993, 0, false, false⟩ false = .ok ⟨9223372036854776832, -31703⟩ ∧
+    Bellerophon.bellerophon FTy.f64 (Gen.Bellerophon.CompactRadix.powers 10)
+        ⟨9007199254740993, 300, false, false⟩ false = .ok ⟨0, 2047⟩ := by
   decide +kernel
 
 end LexVerif.Props.C01
